@@ -19,10 +19,19 @@ for f in sorted(glob.glob('/verif/seeded/mutants*.json')):
         n = notes.get(m['name'], "")
         print("| `%s` (%s) | %s | %s%s |" % (m['name'], m['file'].split('/')[-1], m.get('note', ''), "; ".join(res), (" - " + n) if n else ""))
 print()
-print("| seeded change (independent sub-agent) | needs to manifest | result |")
-print("|---|---|---|")
+import re
+final = {}
+if os.path.exists('/verif/seeded/final_sweep.log'):
+    for l in open('/verif/seeded/final_sweep.log'):
+        m = re.match(r"FINAL seed (\S+) check (\S+): exit-violations=(\d+)", l)
+        if m:
+            final.setdefault(m.group(1), {})[m.group(2)] = int(m.group(3))   # later lines win
+print("| seeded change (independent sub-agent; `seeded/<id>/`) | needs to manifest | result when first evaluated | final checks (`tools/final_sweep.sh`) |")
+print("|---|---|---|---|")
 for d in sorted(glob.glob('/verif/seeded/C*/meta.json')):
     m = json.load(open(d))
     ev = m.get('evaluation', {})
-    print("| `seeded/%s` - %s | %s | %s |" % (os.path.basename(os.path.dirname(d)), str(m.get('summary', ''))[:220].replace('|', '/').replace('\n', ' '),
-                                            str(m.get('needs_to_manifest', ''))[:200].replace('|', '/').replace('\n', ' '), ev.get('result', 'not evaluated').replace('|', '/')))
+    sid = os.path.basename(os.path.dirname(d))
+    fin = "; ".join("%s %s" % (c, "**caught**" if v > 0 else "silent") for c, v in sorted(final.get(sid, {}).items())) or ("n/a (see note)" if 'note_after_F17' in ev and sid == 'C01' else "not run")
+    print("| `%s` - %s | %s | %s | %s |" % (sid, str(m.get('summary', ''))[:260].replace('|', '/').replace('\n', ' '),
+                                       str(m.get('needs_to_manifest', ''))[:220].replace('|', '/').replace('\n', ' '), ev.get('result', 'not evaluated').replace('|', '/'), fin))
